@@ -991,8 +991,14 @@ class MultipleTableCoordinate(BaseTableCoordinate):
             New TableCoordinate object holding the interpolated coords.
 
         """
-        new_table_coordinates = [coord.interpolate(new_array_grids, **kwargs)
-                                 for coord in self.table_coords]
+        # Hand each table coordinate the grids of its own array axes.
+        new_table_coordinates = []
+        i = 0
+        for coord in self._table_coords:
+            n_axes = getattr(coord, "ndim", 1)  # a time table is always 1-D
+            coord_grids = new_array_grids[i:i + n_axes]
+            i += n_axes
+            new_table_coordinates.append(coord.interpolate(*coord_grids, **kwargs))
         new_obj = type(self)(*new_table_coordinates)
         new_obj._dropped_coords = self._dropped_coords
         return new_obj
